@@ -10,6 +10,7 @@ import (
 	"io"
 	"strconv"
 	"strings"
+	"testing/iotest"
 
 	"pault.ag/go/debian/control"
 	"pault.ag/go/debian/hashio"
@@ -80,6 +81,13 @@ var hashioImpl = map[string]core.Adapter{
 				return "err"
 			}
 			hashers = []*hashio.Hasher{h}
+			if all := strings.Join(chunks, ""); (len(all)+len(chunks))%4 == 1 {
+				// the writer driven by io.Copy (through ReadFrom when the writer offers it)
+				if n, err := io.Copy(w, iotest.DataErrReader(strings.NewReader(all))); err != nil || int(n) != len(all) {
+					return "short-write"
+				}
+				chunks = nil
+			}
 			for _, c := range chunks {
 				if n, err := w.Write([]byte(c)); err != nil || n != len(c) {
 					return "short-write"
@@ -92,6 +100,12 @@ var hashioImpl = map[string]core.Adapter{
 				return "err"
 			}
 			hashers = hs
+			if all := strings.Join(chunks, ""); (len(all)+len(chunks))%4 == 1 {
+				if n, err := io.Copy(w, iotest.DataErrReader(strings.NewReader(all))); err != nil || int(n) != len(all) {
+					return "short-write"
+				}
+				chunks = nil
+			}
 			for _, c := range chunks {
 				if n, err := w.Write([]byte(c)); err != nil || n != len(c) {
 					return "short-write"
@@ -101,7 +115,22 @@ var hashioImpl = map[string]core.Adapter{
 				}
 			}
 		case "r1", "rn":
-			src := &chunkReader{data: []byte(strings.Join(chunks, ""))}
+			all := []byte(strings.Join(chunks, ""))
+			// how the data comes in and how it is consumed must not matter: a source that hands out
+			// what it has, one that reports io.EOF together with its last block, one byte at a time,
+			// a bytes.Reader (which io.Copy drives through WriteTo)
+			strategy := (len(all) + len(chunks)) % 5
+			var src io.Reader = &chunkReader{data: all}
+			switch strategy {
+			case 1:
+				src = iotest.DataErrReader(bytes.NewReader(all))
+			case 2:
+				src = iotest.OneByteReader(bytes.NewReader(all))
+			case 3:
+				src = bytes.NewReader(all)
+			case 4:
+				src = iotest.DataErrReader(&chunkReader{data: all})
+			}
 			var rd io.Reader
 			if mode == "r1" {
 				r, h, err := hashio.NewHasherReader(names[0], src)
@@ -115,6 +144,20 @@ var hashioImpl = map[string]core.Adapter{
 					return "err"
 				}
 				rd, hashers = r, hs
+			}
+			if strategy != 0 {
+				var err error
+				if strategy == 2 {
+					var b []byte
+					b, err = io.ReadAll(rd)
+					sink.Write(b)
+				} else {
+					_, err = io.Copy(&sink, rd)
+				}
+				if err != nil {
+					return "short-read"
+				}
+				chunks = nil
 			}
 			for _, c := range chunks { // read in the same chunking
 				buf := make([]byte, len(c))
